@@ -7,7 +7,7 @@ from ..selftest import Mutant
 
 ID = "C40"
 TECHNIQUE = "writer/reader key, marker and record-kind table agreement (K6) for merge directives and v4 bundles (ast)"
-FLOOR = 10
+FLOOR = 11
 MD = "breezy/merge_directive.py"
 V4 = "breezy/bzr/bundle/serializer/v4.py"
 EXPLANATION = """
